@@ -75,22 +75,17 @@ func (l *Lexer) scanInLine() Token {
 		return l.scanComment()
 	case ch == '(':
 		if l.looksLikeVirtualAccount() {
-			l.advance()
-			return l.makeToken(TokenLParen, "(")
+			return l.scanSingle(TokenLParen, "(")
 		}
 		return l.scanCode()
 	case ch == ')':
-		l.advance()
-		return l.makeToken(TokenRParen, ")")
+		return l.scanSingle(TokenRParen, ")")
 	case ch == '[':
-		l.advance()
-		return l.makeToken(TokenLBracket, "[")
+		return l.scanSingle(TokenLBracket, "[")
 	case ch == ']':
-		l.advance()
-		return l.makeToken(TokenRBracket, "]")
+		return l.scanSingle(TokenRBracket, "]")
 	case ch == '|':
-		l.advance()
-		return l.makeToken(TokenPipe, "|")
+		return l.scanSingle(TokenPipe, "|")
 	case ch == '@':
 		return l.scanAt()
 	case ch == '=':
@@ -119,6 +114,15 @@ func (l *Lexer) scanInLine() Token {
 	default:
 		return l.scanText()
 	}
+}
+
+// scanSingle scans a one-character token. The start position is taken before
+// the character is consumed, so the token covers its lexeme (Pos..End) instead
+// of being an empty token one column to the right of it.
+func (l *Lexer) scanSingle(typ TokenType, value string) Token {
+	startPos := l.position()
+	l.advance()
+	return Token{Type: typ, Value: value, Pos: startPos, End: l.position()}
 }
 
 func (l *Lexer) scanDate() Token {
